@@ -21,6 +21,11 @@ PY_CMP = {'==': ('==', False), '!=': ('==', True), '>': ('>', False), '<': ('<',
           '<=': ('<=', False), 'in': ('in', False), 'not in': ('in', True)}
 
 
+INPLACE_MSG = ('%r is computed with the binary operator `%s` and stored back: for a list that builds a new list and rebinds the name / '
+               'slot, while the augmented assignment (x op= v, operator.i*) extends the existing object - other references to it '
+               'stop seeing the update')
+
+
 def derived_from(F, t, src) -> bool:
     """t is src itself or a conversion of it (str(src), Decimal(src), int(src) ...)."""
     t = freeze(t)
@@ -91,6 +96,8 @@ def check(chk: Check) -> None:
                         v = freeze(st[0].value)
                         if not (isinstance(v, tuple) and v[:2] == ('binop', op[:-1])):
                             problems.append('%r stores %s' % (op, show(v)))
+                        elif not any(e.kind in ('inplace_op', 'aug_name') and e.op == op[:-1] for e in p.events):
+                            problems.append(INPLACE_MSG % (op, op[:-1]))
                     else:
                         problems.append('%r performs %d in-place updates and %d stores of the variable' % (op, len(aug), len(st)))
                     continue
@@ -157,6 +164,8 @@ def check(chk: Check) -> None:
                     v = freeze(st[0].value)
                     if not (isinstance(v, tuple) and v[:2] == ('binop', op[:-1]) and isinstance(v[2], tuple) and v[2][:2] == ('sub', cont)):
                         problems.append('%r stores %s, not container[key] %s value' % (op, show(v), op[:-1]))
+                    elif not any(e.kind in ('inplace_op', 'aug_name') and e.op == op[:-1] for e in p.events):
+                        problems.append(INPLACE_MSG % (op, op[:-1]))
                 else:
                     problems.append('%r performs %d in-place updates and %d stores of the container' % (op, len(aug), len(st)))
             chk.require(not problems, R1, '%s [op=%r]' % (q, op), fi.where, '; '.join(sorted(set(problems))) or 'container[key] %s value' % op)
